@@ -8,7 +8,8 @@ use std::io::{BufRead, Write};
 /// Ordering points for the calling-process protocol (src/utils/process.rs).
 ///
 /// DELTA_VERIF_SCHEDULE is a comma separated list of point names, optionally suffixed with
-/// `@<ms>` (sleep that many milliseconds after the point has been released). A thread that
+/// `@<ms>` (the next entry is not released before that many milliseconds have passed, which
+/// gives the thread that passed this point time to run up to its next blocking operation). A thread that
 /// reaches `point(name)` blocks until every entry before the first not-yet-consumed
 /// occurrence of `name` has been consumed. A point that is not in the (remaining) schedule
 /// is free. A point that waits longer than DELTA_VERIF_SCHEDULE_TIMEOUT_MS (default 1500)
@@ -24,6 +25,7 @@ pub mod sched {
         entries: Vec<(String, u64)>,
         idx: usize,
         broken: bool,
+        not_before: Instant,
     }
 
     lazy_static::lazy_static! {
@@ -45,6 +47,7 @@ pub mod sched {
             entries,
             idx: 0,
             broken: false,
+            not_before: Instant::now(),
         })
     }
 
@@ -79,7 +82,6 @@ pub mod sched {
         let (mutex, cond) = &*STATE;
         let mut guard = mutex.lock().unwrap();
         let deadline = Instant::now() + Duration::from_millis(timeout_ms);
-        let mut sleep_ms = 0;
         loop {
             let st = match guard.as_mut() {
                 Some(st) => st,
@@ -95,8 +97,13 @@ pub mod sched {
                     trace(&format!("FREE {name}"));
                     break;
                 }
+                Some(0) if Instant::now() < st.not_before => {
+                    let wait = st.not_before - Instant::now();
+                    let (g, _) = cond.wait_timeout(guard, wait).unwrap();
+                    guard = g;
+                }
                 Some(0) => {
-                    sleep_ms = st.entries[st.idx].1;
+                    st.not_before = Instant::now() + Duration::from_millis(st.entries[st.idx].1);
                     st.idx += 1;
                     trace(&format!("POINT {name}"));
                     cond.notify_all();
@@ -116,9 +123,6 @@ pub mod sched {
             }
         }
         drop(guard);
-        if sleep_ms > 0 {
-            std::thread::sleep(Duration::from_millis(sleep_ms));
-        }
     }
 }
 
